@@ -23,11 +23,26 @@ LEVEL_ASSUMPTIONS = [
     "values that do not fit the packing's integer type cannot be represented "
     "and are skipped",
 ]
-REQUIRED = {"judged_feasible": 50, "judged_infeasible": 50,
+REQUIRED = {"suite_runs": 1, "contract_validate_evaluated": 200, "judged_feasible": 50, "judged_infeasible": 50,
             "text_roundtrips": 20}
 
 
+# the repository's own tests as a further workload, observed by the
+# process-wide contracts of vlib/monitors (see vlib/suite.py)
+SUITE_TESTS = ['tests/binpacking2d/test_binpacking2d_packing_space.py', 'tests/binpacking2d/encodings']
+SUITE_DOMAINS = ['packing']
+
+
 def plan(tier: str, seed: int):
+    rounds = 1 if tier == "quick" else 6
+    return _plan(tier, seed) + [
+        {"name": f"suite{i}", "engine": "jit", "timeout": 3000,
+         "args": {"mode": "suite", "tests": SUITE_TESTS,
+                  "domains": SUITE_DOMAINS, "rounds": rounds}}
+        for i in range(1 if tier == "quick" else 4)]
+
+
+def _plan(tier: str, seed: int):
     if tier == "quick":
         return [{"name": f"s{i}", "engine": "jit", "args": {"n": 45},
                  "timeout": 900} for i in range(4)]
